@@ -483,42 +483,67 @@ def pam_case(ctx, rng, idx):
     _patch()
     pm, m, ems, x = _predictive(rng, n_out=1)
     names = pm.get_parameter_names()
-    k = int(rng.integers(2, 4))
+    k = int(rng.integers(2, 5))
     models = []
     for j in range(k):
         ds = _posterior_dataset(rng, names, 2, 5, ['a', 'b'])
         ds = ds + 10.0 * j          # model j has values in [10 j, 10 j + 1)
         models.append(chi.PosteriorPredictiveModel(pm, ds))
     w = rng.uniform(0.2, 1.0, size=k)
+    mode = ['plain', 'zero_weight', 'few_samples'][idx % 3]
+    if mode == 'zero_weight':
+        w[int(rng.integers(0, k - 1))] = 0.0     # not the last model
     pam = chi.PAMPredictiveModel(models, w)
-    n = 400
+    p = w / w.sum()
     seed = int(rng.integers(1, 2 ** 31))
-    feats = {'family': 'pam', 'weights': w / w.sum(), 'n_samples': n}
-    ctx.case(('pam', k, idx % 10), True, sample=feats)
+    feats = {'family': 'pam', 'weights': p, 'mode': mode}
+    ctx.case(('pam', k, mode, idx % 10), True, sample=feats)
+    which = []
     try:
-        df, calls = _tap(lambda: pam.sample([1.0, 2.0], n_samples=n,
-                                            individual='a', seed=seed))
+        if mode == 'few_samples':
+            # many calls with 1-3 samples each: most models get no draw
+            for c in range(150):
+                n_c = int(rng.integers(1, 4))
+                df, calls = _tap(lambda: pam.sample(
+                    [1.0, 2.0], n_samples=n_c, individual='a',
+                    seed=seed + c))
+                if len(calls) != n_c:
+                    ctx.violation('one_draw_per_sample', 'pam_call_count',
+                                  {'inner_calls': len(calls),
+                                   'n_samples': n_c}, feats)
+                    return
+                which += [int(c_[0][0] // 10) for c_ in calls]
+        else:
+            n = 400
+            df, calls = _tap(lambda: pam.sample(
+                [1.0, 2.0], n_samples=n, individual='a', seed=seed))
+            if len(calls) != n:
+                ctx.violation('one_draw_per_sample', 'pam_call_count',
+                              {'inner_calls': len(calls)}, feats)
+                return
+            which = [int(c_[0][0] // 10) for c_ in calls]
+            ids = sorted(df['ID'].unique())
+            if ids != list(range(1, n + 1)):
+                ctx.violation('table_labels_match_array', 'pam_sample_ids',
+                              {'n_ids': len(ids), 'expected': n}, feats)
     except Exception as e:      # noqa
         ctx.violation_exc('sample_raises', e, {'case': feats}, feats)
         return
     ctx.count('pam_calls')
-    if len(calls) != n:
-        ctx.violation('one_draw_per_sample', 'pam_call_count',
-                      {'inner_calls': len(calls)}, feats)
-        return
-    which = np.array([int(c[0][0] // 10) for c in calls])
-    p = w / w.sum()
+    which = np.array(which)
+    n = len(which)
     for j in range(k):
         cnt = int(np.sum(which == j))
         ctx.count('binomial_tests')
-        if not S.binom_tail_ok(cnt, n, float(p[j])):
+        if (p[j] == 0 and cnt > 0) or not S.binom_tail_ok(cnt, n,
+                                                          float(p[j])):
             ctx.violation('models_chosen_with_stated_weights',
-                          'pam_weights', {'model': j, 'count': cnt, 'n': n,
-                                          'weight': float(p[j])}, feats)
-    ids = sorted(df['ID'].unique())
-    if ids != list(range(1, n + 1)):
-        ctx.violation('table_labels_match_array', 'pam_sample_ids',
-                      {'n_ids': len(ids), 'expected': n}, feats)
+                          'pam_weights:' + mode,
+                          {'model': j, 'count': cnt, 'n': n,
+                           'weight': float(p[j]),
+                           'counts': [int(np.sum(which == q))
+                                      for q in range(k)]}, feats)
+            return
 
 
 FAMILIES = [
@@ -526,5 +551,5 @@ FAMILIES = [
     Family('population', population_case, quick=160, thorough=3000),
     Family('posterior', posterior_case, quick=120, thorough=2000),
     Family('prior', prior_case, quick=16, thorough=200),
-    Family('pam', pam_case, quick=16, thorough=200),
+    Family('pam', pam_case, quick=24, thorough=300),
 ]
